@@ -53,6 +53,10 @@ var knownHelpers = map[string]bool{
 	"init": true, "main": true,
 }
 
+// tagSiblings: per package, the plain functions declared both in the compiled files and in a file that the
+// current build configuration excludes.
+var tagSiblings = map[string]map[string]bool{}
+
 type inlineNote struct {
 	Helper string `json:"helper"`
 	Into   string `json:"into"`
@@ -118,6 +122,33 @@ func inlineNewHelpers(initial []*packages.Package, all []*packages.Package, goar
 			continue
 		}
 		sp := &srcPkg{path: pk.PkgPath, name: pk.Name, fset: pk.Fset, info: pk.TypesInfo, pkg: pk.Types}
+		// plain functions that a file excluded by its build constraint declares too (release/debug siblings)
+		{
+			other := map[string]bool{}
+			for _, fnm := range pk.IgnoredFiles {
+				if !strings.HasSuffix(fnm, ".go") || strings.HasSuffix(fnm, "_test.go") {
+					continue
+				}
+				af, err := parser.ParseFile(token.NewFileSet(), fnm, nil, parser.SkipObjectResolution)
+				if err != nil {
+					continue
+				}
+				for _, d := range af.Decls {
+					if fd, ok := d.(*ast.FuncDecl); ok && fd.Recv == nil {
+						other[fd.Name.Name] = true
+					}
+				}
+			}
+			sib := map[string]bool{}
+			for _, f := range pk.Syntax {
+				for _, d := range f.Decls {
+					if fd, ok := d.(*ast.FuncDecl); ok && fd.Recv == nil && other[fd.Name.Name] {
+						sib[fd.Name.Name] = true
+					}
+				}
+			}
+			tagSiblings[pk.PkgPath] = sib
+		}
 		for i, f := range pk.Syntax {
 			name := pk.CompiledGoFiles[i]
 			src, err := os.ReadFile(name)
@@ -408,6 +439,11 @@ func inlineRound(sp *srcPkg, res *inlineResult, round int) (bool, error) {
 			}
 			key := helperKey(sp.path, obj)
 			if knownHelpers[key] {
+				continue
+			}
+			if fd.Recv == nil && tagSiblings[sp.path][fd.Name.Name] {
+				// a function that the other build-tag variant of the package declares too stays a function: the two
+				// variants are compared with each other (rule *.tags)
 				continue
 			}
 			ok, why := eligibleHelper(fd, info, obj)
